@@ -172,6 +172,12 @@ func (c *Conn) handleClientHello(record []byte, isRetry bool) (outer, inner *cli
 	if outer, err = parseClientHello(record[5:]); err != nil {
 		return nil, nil, err
 	}
+	// Nothing may follow the extensions of the ClientHello, nor the
+	// ClientHello in its record: such bytes would not be covered by the
+	// ClientHelloOuterAAD, which is rebuilt from the parsed fields.
+	if outer.hasTrailingData {
+		return nil, nil, fmt.Errorf("%w: trailing data after ClientHello", ErrDecodeError)
+	}
 	// Section 5.1
 	// The "ech_outer_extensions" extension can only be included in
 	// EncodedClientHelloInner, and MUST NOT appear in either
